@@ -1,368 +1,15 @@
-import PEval.Lemmas.PassFailCount
+import PEval.Properties.C03Core
+import PEval.Properties.Pipeline
 /-!
-# C03 — per-frame TP/FP/FN/TN accounting conserves objects
+# C03 — per-frame TP/FP/FN/TN accounting conserves objects (root of the property)
 
-Model: `PEval.Model.PassFail` (`getStatus`, `getPositive`, `getNegative`, `evaluate`, `evaluateFrame`).
-The critical predicate is an abstract Boolean per object, so everything below holds for ANY critical
-region, any pass/fail thresholds, any label policy (they only enter through `labelOk`, `thr`, `score`)
-and any list lengths.
+* `PEval/Properties/C03Core.lean` (namespace `PEval.C03`): the property theorems about the pass/fail
+  model, the conservation theorems under the decidable well-formedness hypothesis `MatcherWF`.
+* `PEval/Properties/Pipeline.lean` (namespace `PEval.PipelineProps`): the composition with the matcher
+  model — `matcher_output_wf` (C01's guarantees ARE `MatcherWF`), hence `pipeline_conservation`,
+  `pipeline_accounting_perm`, `pipeline_num_total`, `pipeline_tp_fp_exactly_one`,
+  `pipeline_history_conservation` with no well-formedness hypothesis left.
 
-Hypothesis of the ground-truth side (`WF rs gts`, decidable): the ground truths are a *set*
-(pairwise different objects, pairwise different under `DynamicObject.__eq__`), and the ground truths
-attached to the object results are distinct members of it.  `pipeline_wf` shows the critical filter
-preserves it, so it only has to hold for the matcher's output (C01: every ground truth is used at
-most once and comes from the list handed to the matcher) - the driver evaluates `MatcherWF` on every
-frame the real pipeline produces.  Without "pairwise different under `__eq__`" conservation is false
-(`dup_gt_breaks_conservation` below): the excluded point of the quantifier's word *set*.
+The core is a separate module only because the composition imports it (no import cycle); the audit
+of `./check C03` imports this root and therefore sees both.
 -/
-namespace PEval.C03
-open PEval.PassFail
-
-/-! ## results = TP + FP -/
-
-/-- Every object result handed to `get_positive_objects` is reported exactly once: the TP list is the
-sub-list of results with status (TP, TP), the FP list is - in order - the remaining results, each
-either unchanged or re-wrapped without its ground truth (status (FP, TN)); in both cases the estimate
-is preserved. Hence `|TP| + |FP| = |results|` and the estimates of TP ++ FP are a permutation of the
-estimates of the results. No hypothesis. -/
-theorem tp_fp_partition (rs : List Res) :
-    (getPositive rs).1 = rs.filter isTP ∧
-    (getPositive rs).2 = (rs.filter (fun r => !isTP r)).map fpEntry ∧
-    (∀ r, (fpEntry r).est = r.est ∧ ((fpEntry r) = r ∨ (fpEntry r) = r.unmatched)) ∧
-    (getPositive rs).1.length + (getPositive rs).2.length = rs.length ∧
-    ((getPositive rs).1.map (·.est) ++ (getPositive rs).2.map (·.est)).Perm (rs.map (·.est)) := by
-  have hperm := List.filter_append_perm isTP rs
-  refine ⟨getPositive_fst rs, getPositive_snd rs, ?_, ?_, ?_⟩
-  · intro r
-    refine ⟨fpEntry_est r, ?_⟩
-    unfold fpEntry; split <;> simp
-  · rw [getPositive_fst, getPositive_snd, List.length_map, ← List.length_append]
-    exact hperm.length_eq
-  · rw [getPositive_fst, getPositive_snd, List.map_map]
-    have : (Res.est ∘ fpEntry) = Res.est := by funext r; exact fpEntry_est r
-    have h2 : ((fun x : Res => x.est) ∘ fpEntry) = (fun x : Res => x.est) := this
-    rw [h2, ← List.map_append]
-    exact hperm.map _
-
-/-- with the matcher's guarantee that every estimate occurs once (C01), each surviving result's
-estimate is in exactly one of the two lists -/
-theorem tp_fp_exactly_one (rs : List Res) (hn : (rs.map (·.est)).Nodup) :
-    ∀ r ∈ rs,
-      (r.est ∈ (getPositive rs).1.map (·.est) ∧ r.est ∉ (getPositive rs).2.map (·.est)) ∨
-      (r.est ∉ (getPositive rs).1.map (·.est) ∧ r.est ∈ (getPositive rs).2.map (·.est)) := by
-  intro r hr
-  have hp := (tp_fp_partition rs).2.2.2.2
-  have hnd : ((getPositive rs).1.map (·.est) ++ (getPositive rs).2.map (·.est)).Nodup :=
-    hp.nodup_iff.mpr hn
-  have hdis := (List.nodup_append.mp hnd).2.2
-  have hin : r.est ∈ (getPositive rs).1.map (·.est) ++ (getPositive rs).2.map (·.est) :=
-    hp.mem_iff.mpr (List.mem_map.mpr ⟨r, hr, rfl⟩)
-  rcases List.mem_append.mp hin with h | h
-  · exact Or.inl ⟨h, fun h' => hdis _ h _ h' rfl⟩
-  · exact Or.inr ⟨fun h' => hdis _ h' _ h rfl, h⟩
-
-/-! ## TP soundness -/
-
-/-- A TP has a ground truth that is not FP-labelled, its label is compatible with it under the
-configured policy, and either no pass/fail threshold is configured for the ground truth's label or
-the plane distance is strictly smaller than that threshold. (That is exactly what the code requires:
-with no threshold for the label, label compatibility alone makes a TP.) -/
-theorem tp_sound (rs : List Res) (r : Res) (h : r ∈ (getPositive rs).1) :
-    ∃ g, r.gt = some g ∧ g.isFP = false ∧ r.labelOk = true ∧
-      (r.thr = none ∨ ∃ t v, r.thr = some t ∧ r.score = some v ∧ v < t) := by
-  rw [getPositive_fst] at h
-  obtain ⟨g, hg, hf, hc⟩ := (isTP_iff r).mp (List.mem_filter.mp h).2
-  refine ⟨g, hg, hf, ?_⟩
-  unfold isResultCorrect at hc
-  rw [hg] at hc
-  cases ht : r.thr with
-  | none => simp [ht] at hc; exact ⟨hc, Or.inl rfl⟩
-  | some t =>
-    simp [ht, hf] at hc
-    refine ⟨hc.2, Or.inr ⟨t, ?_⟩⟩
-    cases hv : r.score with
-    | none => simp [isBetterThan, hv] at hc
-    | some v => simp [isBetterThan, hv] at hc; exact ⟨v, rfl, rfl, hc.1⟩
-
-/-- conversely, a result satisfying those conditions is a TP (so `tp_sound` is a characterisation) -/
-theorem tp_complete (rs : List Res) (r : Res) (hr : r ∈ rs) (g : GT) (hg : r.gt = some g)
-    (hf : g.isFP = false) (hl : r.labelOk = true)
-    (hs : r.thr = none ∨ ∃ t v, r.thr = some t ∧ r.score = some v ∧ v < t) :
-    r ∈ (getPositive rs).1 := by
-  rw [getPositive_fst]
-  refine List.mem_filter.mpr ⟨hr, (isTP_iff r).mpr ⟨g, hg, hf, ?_⟩⟩
-  unfold isResultCorrect
-  rw [hg]
-  rcases hs with h | ⟨t, v, ht, hv, hlt⟩
-  · simp [h, hl]
-  · simp [ht, hv, hf, hl, isBetterThan, hlt]
-
-/-! ## every critical ground truth is accounted for exactly once -/
-
-/-- The ground truths of the TP results, the FN list, the TN list and the ground truths of the
-matched-FP results (FP results still carrying their FP-labelled ground truth) are together a
-permutation of the ground-truth list: every ground truth occurs in exactly one of the four places,
-exactly once. -/
-theorem gt_accounting_perm (rs : List Res) (gts : List GT) (h : WF rs gts) :
-    (gtsOf (getPositive rs).1 ++ ((getNegative gts rs).2 ++ ((getNegative gts rs).1 ++
-      gtsOf (matchedFP (getPositive rs).2)))).Perm gts := by
-  rw [matchedFP_getPositive, getPositive_fst, getNegative_eq, isTP_eq_gtStatusIs]
-  have h1 := (List.filter_append_perm (fun g => inNonCand g (gtsOf rs)) gts)
-  have h2 := (filter_inNonCand_perm h).trans (gtsOf_status_perm rs)
-  have h3 := List.filter_append_perm (fun g : GT => g.isFP)
-    (gts.filter (fun g => !inNonCand g (gtsOf rs)))
-  rw [List.filter_filter, List.filter_filter] at h3
-  rw [List.perm_iff_count]
-  intro a
-  have c1 := h1.count_eq a
-  have c2 := h2.count_eq a
-  have c3 := h3.count_eq a
-  simp only [List.count_append] at c1 c2 c3 ⊢
-  have e1 : List.filter (fun g => !inNonCand g (gtsOf rs) && g.isFP) gts
-      = List.filter (fun a => a.isFP && !inNonCand a (gtsOf rs)) gts := by
-    congr 1; funext g; exact Bool.and_comm _ _
-  have e2 : List.filter (fun g => !inNonCand g (gtsOf rs) && !g.isFP) gts
-      = List.filter (fun a => (!a.isFP) && !inNonCand a (gtsOf rs)) gts := by
-    congr 1; funext g; exact Bool.and_comm _ _
-  rw [e1, e2]
-  omega
-
-/-- the FN list holds only ordinary ground truths, the TN list only FP-labelled ones; TP results have
-ordinary ground truths, matched-FP results FP-labelled ones (no hypothesis) -/
-theorem list_label_kinds (rs : List Res) (gts : List GT) :
-    (∀ g ∈ gtsOf (getPositive rs).1, g.isFP = false) ∧
-    (∀ g ∈ (getNegative gts rs).2, g.isFP = false) ∧
-    (∀ g ∈ (getNegative gts rs).1, g.isFP = true) ∧
-    (∀ g ∈ gtsOf (matchedFP (getPositive rs).2), g.isFP = true) := by
-  rw [matchedFP_getPositive, getPositive_fst, getNegative_eq, isTP_eq_gtStatusIs]
-  refine ⟨?_, ?_, ?_, ?_⟩
-  · intro g hg
-    obtain ⟨r, _, hp, hrg⟩ := mem_gtsOf_filter.mp hg
-    exact (status_isFP hrg).1 hp
-  · intro g hg
-    rcases List.mem_append.mp hg with hg | hg
-    · obtain ⟨r, _, hp, hrg⟩ := mem_gtsOf_filter.mp hg
-      exact (status_isFP hrg).2.1 hp
-    · have := (List.mem_filter.mp hg).2; simp at this; exact this.2
-  · intro g hg
-    rcases List.mem_append.mp hg with hg | hg
-    · obtain ⟨r, _, hp, hrg⟩ := mem_gtsOf_filter.mp hg
-      exact (status_isFP hrg).2.2.1 hp
-    · have := (List.mem_filter.mp hg).2; simp at this; exact this.2
-  · intro g hg
-    obtain ⟨r, _, hp, hrg⟩ := mem_gtsOf_filter.mp hg
-    exact (status_isFP hrg).2.2.2 hp
-
-/-- every TP and every matched FP carries a ground truth -/
-theorem gtsOf_length_tp (rs : List Res) :
-    (gtsOf (getPositive rs).1).length = (getPositive rs).1.length ∧
-    (gtsOf (matchedFP (getPositive rs).2)).length = (matchedFP (getPositive rs).2).length := by
-  have key : ∀ l : List Res, (∀ r ∈ l, r.gt.isSome = true) → (gtsOf l).length = l.length := by
-    intro l
-    induction l with
-    | nil => intro _; rfl
-    | cons r l ih =>
-      intro hl
-      have hr := hl r List.mem_cons_self
-      cases hg : r.gt with
-      | none => simp [hg] at hr
-      | some g =>
-        have := ih (fun x hx => hl x (List.mem_cons_of_mem _ hx))
-        simp [gtsOf, hg] at this ⊢; exact this
-  constructor
-  · apply key
-    intro r hr
-    rw [getPositive_fst] at hr
-    obtain ⟨g, hg, _⟩ := (isTP_iff r).mp (List.mem_filter.mp hr).2
-    simp [hg]
-  · apply key
-    intro r hr
-    have := (List.mem_filter.mp hr).2
-    unfold Res.hasFPGt at this
-    cases hg : r.gt with
-    | none => simp [hg] at this
-    | some g => simp
-
-/-- ordinary critical ground truths = TP + FN -/
-theorem gt_conservation_ordinary (rs : List Res) (gts : List GT) (h : WF rs gts) :
-    (gts.filter (fun g => !g.isFP)).length = (getPositive rs).1.length + (getNegative gts rs).2.length := by
-  have hp := (gt_accounting_perm rs gts h).countP_eq (fun g => !g.isFP)
-  obtain ⟨k1, k2, k3, k4⟩ := list_label_kinds rs gts
-  rw [← List.countP_eq_length_filter, ← hp]
-  simp only [List.countP_append]
-  have a1 : List.countP (fun g => !g.isFP) (gtsOf (getPositive rs).1) = (gtsOf (getPositive rs).1).length :=
-    List.countP_eq_length.mpr (fun g hg => by simp [k1 g hg])
-  have a2 : List.countP (fun g => !g.isFP) (getNegative gts rs).2 = (getNegative gts rs).2.length :=
-    List.countP_eq_length.mpr (fun g hg => by simp [k2 g hg])
-  have a3 : List.countP (fun g => !g.isFP) (getNegative gts rs).1 = 0 :=
-    List.countP_eq_zero.mpr (fun g hg => by simp [k3 g hg])
-  have a4 : List.countP (fun g => !g.isFP) (gtsOf (matchedFP (getPositive rs).2)) = 0 :=
-    List.countP_eq_zero.mpr (fun g hg => by simp [k4 g hg])
-  rw [a1, a2, a3, a4, (gtsOf_length_tp rs).1]
-  omega
-
-/-- FP-labelled critical ground truths = TN + matched FP -/
-theorem gt_conservation_fp_label (rs : List Res) (gts : List GT) (h : WF rs gts) :
-    (gts.filter (fun g => g.isFP)).length =
-      (getNegative gts rs).1.length + (matchedFP (getPositive rs).2).length := by
-  have hp := (gt_accounting_perm rs gts h).countP_eq (fun g => g.isFP)
-  obtain ⟨k1, k2, k3, k4⟩ := list_label_kinds rs gts
-  rw [← List.countP_eq_length_filter, ← hp]
-  simp only [List.countP_append]
-  have a1 : List.countP (fun g => g.isFP) (gtsOf (getPositive rs).1) = 0 :=
-    List.countP_eq_zero.mpr (fun g hg => by simp [k1 g hg])
-  have a2 : List.countP (fun g => g.isFP) (getNegative gts rs).2 = 0 :=
-    List.countP_eq_zero.mpr (fun g hg => by simp [k2 g hg])
-  have a3 : List.countP (fun g => g.isFP) (getNegative gts rs).1 = (getNegative gts rs).1.length :=
-    List.countP_eq_length.mpr (fun g hg => by simp [k3 g hg])
-  have a4 : List.countP (fun g => g.isFP) (gtsOf (matchedFP (getPositive rs).2))
-      = (gtsOf (matchedFP (getPositive rs).2)).length :=
-    List.countP_eq_length.mpr (fun g hg => by simp [k4 g hg])
-  rw [a1, a2, a3, a4, (gtsOf_length_tp rs).2]
-  omega
-
-/-! ## the critical filter: nothing outside the critical region is counted -/
-
-/-- After `evaluate_frame`, every estimate in the TP and FP lists satisfies the critical predicate,
-and so does every ground truth attached to a TP/FP result and every ground truth in the TN and FN
-lists; the stored `object_results` / `frame_ground_truth.objects` are the filtered lists.
-(The predicate is evaluated on the ego-relative position by the harness for either frame id.) -/
-theorem critical_only (f : Frame) :
-    (∀ r ∈ (evaluateFrame f).tp, r.estCrit = true ∧ ∀ g, r.gt = some g → g.crit = true) ∧
-    (∀ r ∈ (evaluateFrame f).fp, r.estCrit = true ∧ ∀ g, r.gt = some g → g.crit = true) ∧
-    (∀ g ∈ (evaluateFrame f).tn, g.crit = true) ∧
-    (∀ g ∈ (evaluateFrame f).fn, g.crit = true) ∧
-    (∀ r ∈ (evaluateFrame f).results, r ∈ f.results ∧ resSurvives r = true) ∧
-    (∀ g ∈ (evaluateFrame f).gts, g ∈ f.gts ∧ g.crit = true) := by
-  have surv : ∀ r ∈ criticalResults f.results,
-      r.estCrit = true ∧ ∀ g, r.gt = some g → g.crit = true := by
-    intro r hr
-    have := (List.mem_filter.mp hr).2
-    unfold resSurvives at this
-    cases hg : r.gt with
-    | none => simp [hg] at this; exact ⟨this, fun g hg' => by cases hg'⟩
-    | some g => simp [hg] at this; exact ⟨this.1, fun g' hg' => by cases hg'; exact this.2⟩
-  have fromRes : ∀ (p : Res → Bool) g, g ∈ gtsOf ((criticalResults f.results).filter p) → g.crit = true := by
-    intro p g hg
-    obtain ⟨r, hr, _, hrg⟩ := mem_gtsOf_filter.mp hg
-    exact (surv r hr).2 g hrg
-  refine ⟨?_, ?_, ?_, ?_, ?_, ?_⟩
-  · intro r hr
-    simp only [evaluateFrame, evaluate, getPositive_fst] at hr
-    exact surv r (List.mem_filter.mp hr).1
-  · intro r hr
-    simp only [evaluateFrame, evaluate, getPositive_snd] at hr
-    obtain ⟨r0, hr0, rfl⟩ := List.mem_map.mp hr
-    have h0 := surv r0 (List.mem_filter.mp hr0).1
-    refine ⟨by rw [fpEntry_estCrit]; exact h0.1, ?_⟩
-    intro g hg
-    rcases fpEntry_gt r0 with e | e
-    · rw [e] at hg; exact h0.2 g hg
-    · rw [e] at hg; cases hg
-  · intro g hg
-    simp only [evaluateFrame, evaluate, getNegative_eq] at hg
-    rcases List.mem_append.mp hg with hg | hg
-    · exact fromRes _ g hg
-    · have := (List.mem_filter.mp hg).1
-      exact (List.mem_filter.mp this).2
-  · intro g hg
-    simp only [evaluateFrame, evaluate, getNegative_eq] at hg
-    rcases List.mem_append.mp hg with hg | hg
-    · exact fromRes _ g hg
-    · have := (List.mem_filter.mp hg).1
-      exact (List.mem_filter.mp this).2
-  · intro r hr
-    exact List.mem_filter.mp hr
-  · intro g hg
-    exact List.mem_filter.mp hg
-
-/-- the critical filter preserves the matcher's well-formedness: the surviving results' ground
-truths are distinct members of the critical ground-truth list, which is still a set -/
-theorem pipeline_wf (f : Frame) (h : MatcherWF f) :
-    WF (criticalResults f.results) (criticalGts f.gts) := by
-  obtain ⟨hd, hn, hsub⟩ := h
-  refine ⟨List.Pairwise.filter _ hd, ?_, ?_⟩
-  · exact List.Nodup.sublist (gtsOf_filter_sublist _ _) hn
-  · intro g hg
-    obtain ⟨r, hr, hs, hrg⟩ := mem_gtsOf_filter.mp hg
-    refine List.mem_filter.mpr ⟨hsub g (mem_gtsOf.mpr ⟨r, hr, hrg⟩), ?_⟩
-    unfold resSurvives at hs
-    simp [hrg] at hs
-    exact hs.2
-
-/-- conservation for a whole evaluated frame, from the matcher's guarantee alone -/
-theorem frame_conservation (f : Frame) (h : MatcherWF f) :
-    ((evaluateFrame f).gts.filter (fun g => !g.isFP)).length
-        = (evaluateFrame f).tp.length + (evaluateFrame f).fn.length ∧
-    ((evaluateFrame f).gts.filter (fun g => g.isFP)).length
-        = (evaluateFrame f).tn.length + (matchedFP (evaluateFrame f).fp).length ∧
-    (evaluateFrame f).tp.length + (evaluateFrame f).fp.length = (evaluateFrame f).results.length :=
-  ⟨gt_conservation_ordinary _ _ (pipeline_wf f h), gt_conservation_fp_label _ _ (pipeline_wf f h),
-   (tp_fp_partition _).2.2.2.1⟩
-
-/-- sequences of frames: every frame of a history conserves objects -/
-theorem history_conservation (fs : List Frame) (h : ∀ f ∈ fs, MatcherWF f) :
-    ∀ p ∈ evaluateHistory fs,
-      (p.gts.filter (fun g => !g.isFP)).length = p.tp.length + p.fn.length ∧
-      (p.gts.filter (fun g => g.isFP)).length = p.tn.length + (matchedFP p.fp).length ∧
-      p.tp.length + p.fp.length = p.results.length := by
-  intro p hp
-  obtain ⟨f, hf, rfl⟩ := List.mem_map.mp hp
-  exact frame_conservation f (h f hf)
-
-/-! ## success / fail counters -/
-
-theorem num_success_def (p : PassFail) : numSuccess p = p.tp.length + p.tn.length := rfl
-theorem num_fail_def (p : PassFail) : numFail p = p.fp.length + p.fn.length := rfl
-
-/-- successes and failures together count every result and every ground truth, the ground truths of
-TP and matched-FP results being counted on both sides -/
-theorem num_total (f : Frame) (h : MatcherWF f) :
-    numSuccess (evaluateFrame f) + numFail (evaluateFrame f)
-        + (evaluateFrame f).tp.length + (matchedFP (evaluateFrame f).fp).length
-      = (evaluateFrame f).results.length + (evaluateFrame f).gts.length := by
-  have hl := (gt_accounting_perm _ _ (pipeline_wf f h)).length_eq
-  have ht := (tp_fp_partition (criticalResults f.results)).2.2.2.1
-  have hg := gtsOf_length_tp (criticalResults f.results)
-  simp only [List.length_append] at hl
-  simp only [numSuccess, numFail, evaluateFrame, evaluate]
-  omega
-
-/-! ## non-vacuity: concrete instances of the hypotheses -/
-
-section Examples
-
-def g1 : GT := ⟨1, false, true, 1⟩   -- ordinary, critical, matched, TP
-def g2 : GT := ⟨2, false, true, 2⟩   -- ordinary, critical, matched with a bad score: FN
-def g3 : GT := ⟨3, true, true, 3⟩    -- FP-labelled, matched, no threshold: TN
-def g4 : GT := ⟨4, true, true, 4⟩    -- FP-labelled, matched within the threshold: matched FP
-def g5 : GT := ⟨5, false, true, 5⟩   -- ordinary, unmatched: FN
-def g6 : GT := ⟨6, true, true, 6⟩    -- FP-labelled, unmatched: TN
-def g7 : GT := ⟨7, false, false, 7⟩  -- ordinary, outside the critical region
-def exFrame : Frame :=
-  { results := [⟨10, true, some g1, true, some 2, some 1⟩, ⟨11, true, some g2, true, some 2, some 3⟩,
-                ⟨12, true, some g3, true, none, some 1⟩, ⟨13, true, some g4, true, some 2, some 1⟩,
-                ⟨14, true, none, false, none, none⟩, ⟨15, false, none, false, none, none⟩,
-                ⟨16, true, some g7, true, some 2, some 1⟩],
-    gts := [g1, g2, g3, g4, g5, g6, g7] }
-
-example : MatcherWF exFrame := by decide +kernel
-example : ((evaluateFrame exFrame).tp.map (·.est), (evaluateFrame exFrame).fp.map (·.est),
-           (evaluateFrame exFrame).tn.map (·.id), (evaluateFrame exFrame).fn.map (·.id))
-    = ([10], [11, 12, 13, 14], [3, 6], [2, 5]) := by decide +kernel
-example : numSuccess (evaluateFrame exFrame) = 3 ∧ numFail (evaluateFrame exFrame) = 6 := by
-  decide +kernel
-
-/-- the excluded point: two ground truths equal under `__eq__` (same `eqKey`), one matched. The twin
-is skipped by `in non_candidates`: 2 ordinary ground truths, 1 TP, 0 FN. -/
-theorem dup_gt_breaks_conservation :
-    let a : GT := ⟨1, false, true, 7⟩
-    let b : GT := ⟨2, false, true, 7⟩
-    let rs : List Res := [⟨10, true, some a, true, none, none⟩]
-    ¬ WF rs [a, b] ∧ ([a, b].filter (fun g => !g.isFP)).length = 2 ∧
-      (getPositive rs).1.length = 1 ∧ (getNegative [a, b] rs).2.length = 0 := by
-  decide +kernel
-
-end Examples
-
-end PEval.C03
